@@ -63,7 +63,7 @@ Qed.
 Lemma collect_roots_complete : forall s p, frames_consistent s -> holds_ref s p -> In p (collect_roots s).
 Proof.
   intros s p Hcons H. unfold collect_roots. rewrite !in_app_iff.
-  destruct H as [f k p Hf Hlo Hhi Hn | f Hf | f c Hf Hc | p Hp | p Hp | p Hp | p Hp].
+  destruct H as [f k p Hf Hlo Hhi Hn | f Hf | f c Hf Hc | p Hp | p Hp | p Hp | p Hp | p Hp].
   - left. apply in_flat_map. exists f. split; [exact Hf|]. unfold frame_roots. apply in_or_app. left.
     apply In_ptrs. apply In_window. exists k. rewrite (Hcons f Hf). auto.
   - left. apply in_flat_map. exists f. split; [exact Hf|]. unfold frame_roots. apply in_or_app. right.
@@ -72,14 +72,15 @@ Proof.
   - right. right. left. exact Hp.
   - right. right. right. left. apply In_ptrs. exact Hp.
   - right. right. right. right. left. exact Hp.
-  - right. right. right. right. right. exact Hp.
+  - right. right. right. right. right. left. exact Hp.
+  - right. right. right. right. right. right. exact Hp.
 Qed.
 
 (* ... and collect roots nothing else *)
 Lemma collect_roots_sound : forall s p, frames_consistent s -> In p (collect_roots s) -> holds_ref s p.
 Proof.
   intros s p Hcons H. unfold collect_roots in H. rewrite !in_app_iff in H.
-  destruct H as [H|[H|[H|[H|[H|H]]]]].
+  destruct H as [H|[H|[H|[H|[H|[H|H]]]]]].
   - apply in_flat_map in H. destruct H as (f & Hf & H). unfold frame_roots in H.
     apply in_app_or in H. destruct H as [H|[<-|[]]].
     + apply In_ptrs in H. apply In_window in H. destruct H as (k & Hlo & Hhi & Hn).
@@ -88,6 +89,7 @@ Proof.
   - apply In_running_closures in H. destruct H as (f & Hf & Hc). exact (hr_running_closure s f p Hf Hc).
   - exact (hr_global s p H).
   - apply In_ptrs in H. exact (hr_global_by_index s p H).
+  - exact (hr_manual_buffer s p H).
   - exact (hr_open_upvalue s p H).
   - exact (hr_current_upvalue s p H).
 Qed.
@@ -107,23 +109,25 @@ Qed.
 
 Lemma holds_ref_cache_irrelevant : forall s c p,
   holds_ref (mkVm (v_registers s) (v_frames s) (v_globals s) (v_globals_by_index s)
-                  (v_open_upvalues s) (v_current_upvalues s) c) p <-> holds_ref s p.
+                  (v_open_upvalues s) (v_current_upvalues s) c (v_manual s)) p <-> holds_ref s p.
 Proof.
   intros s c p. split; intro H.
-  - destruct H as [f k p Hf Hlo Hhi Hn | f Hf | f c' Hf Hc | p Hp | p Hp | p Hp | p Hp]; cbn in *.
+  - destruct H as [f k p Hf Hlo Hhi Hn | f Hf | f c' Hf Hc | p Hp | p Hp | p Hp | p Hp | p Hp]; cbn in *.
     + exact (hr_live_variable s f k p Hf Hlo Hhi Hn).
     + exact (hr_running_function s f Hf).
     + exact (hr_running_closure s f c' Hf Hc).
     + exact (hr_global s p Hp).
     + exact (hr_global_by_index s p Hp).
+    + exact (hr_manual_buffer s p Hp).
     + exact (hr_open_upvalue s p Hp).
     + exact (hr_current_upvalue s p Hp).
-  - destruct H as [f k p Hf Hlo Hhi Hn | f Hf | f c' Hf Hc | p Hp | p Hp | p Hp | p Hp].
+  - destruct H as [f k p Hf Hlo Hhi Hn | f Hf | f c' Hf Hc | p Hp | p Hp | p Hp | p Hp | p Hp].
     + apply (hr_live_variable _ f k p); cbn; assumption.
     + apply (hr_running_function _ f); cbn; assumption.
     + apply (hr_running_closure _ f c'); cbn; assumption.
     + apply hr_global; cbn; assumption.
     + apply hr_global_by_index; cbn; assumption.
+    + apply hr_manual_buffer; cbn; assumption.
     + apply hr_open_upvalue; cbn; assumption.
     + apply hr_current_upvalue; cbn; assumption.
 Qed.
@@ -156,7 +160,7 @@ Lemma frame_count_premise_needed_lemma :
     ~ frames_consistent s /\ program_reachable s h i /\ get h i = Some o
     /\ vm_collect s h = Some (s', h') /\ get h' i = None.
 Proof.
-  exists (mkVm [None; Some 1; None] [mkFrame 0 1 0 None 1; mkFrame 1 0 0 None 2] [] [] [] [] []),
+  exists (mkVm [None; Some 1; None] [mkFrame 0 1 0 None 1; mkFrame 1 0 0 None 2] [] [] [] [] [] []),
          (mkHeap [Some (OFunction 7 (FnC [] [])); Some (OString 8)] []), 1, (OString 8).
   eexists. eexists. split; [|split; [|split; [reflexivity|split; [vm_compute; reflexivity|vm_compute; reflexivity]]]].
   - intro H. specialize (H (mkFrame 1 0 0 None 2)). cbn in H.
@@ -166,11 +170,26 @@ Proof.
     + apply (reach_root edges_spec _ [1] 1 (OString 8)); [left; reflexivity|reflexivity].
 Qed.
 
+(* HISTORICAL (root list before /repo 474d1a4): a string whose only reference is a slot of a live
+   manual buffer (store(h, 0, mk(..)) of the commit's failing input) was freed; now it is a root *)
+Lemma manual_buffer_roots_refuted_lemma :
+  exists s h i o h',
+    holds_ref s i /\ get h i = Some o
+    /\ collect h (collect_roots_no_manual s) = Some h' /\ get h' i = None
+    /\ exists s2 h2, vm_collect s h = Some (s2, h2) /\ get h2 i = Some o.
+Proof.
+  exists (mkVm [None] [mkFrame 0 1 0 None 1] [] [] [] [] [] [1]),
+         (mkHeap [Some (OFunction 7 (FnC [] [])); Some (OString 8)] []), 1, (OString 8).
+  eexists. split; [apply hr_manual_buffer; left; reflexivity|].
+  split; [reflexivity|]. split; [vm_compute; reflexivity|]. split; [vm_compute; reflexivity|].
+  eexists. eexists. split; vm_compute; reflexivity.
+Qed.
+
 (* the historical root list lacked exactly the running closures *)
 Lemma collect_roots_old_incl : forall s, incl (collect_roots_old s) (collect_roots s).
 Proof.
   intros s p H. unfold collect_roots_old in H. unfold collect_roots. rewrite !in_app_iff in *.
-  destruct H as [H|[H|[H|[H|H]]]]; auto 10.
+  destruct H as [H|[H|[H|[H|H]]]]; auto 12.
 Qed.
 
 (* the tables regenerated from the Rust source agree with the model's tables (by computation) *)
@@ -198,7 +217,7 @@ Proof.
   split.
   - intro i. rewrite (program_reachable_iff s h i Hcons).
     rewrite program_reachable_iff by (intros f Hf; exact (Hcons f Hf)). unfold collect_roots at 1. cbn [v_registers v_frames v_globals
-      v_globals_by_index v_open_upvalues v_current_upvalues]. fold (collect_roots s).
+      v_globals_by_index v_open_upvalues v_current_upvalues v_manual]. fold (collect_roots s).
     rewrite !Hcs. apply Hiff.
   - intros i Hp. apply Hsame. apply Hcs. apply program_reachable_iff; assumption.
 Qed.
